@@ -11,7 +11,7 @@ Next == UNCHANGED i
 
 RECURSIVE ToNode(_)
 ToNode(x) == [k |-> x.k, name |-> x.name, attrs |-> {[n |-> x.attrs[j].n, v |-> x.attrs[j].v, ns |-> x.attrs[j].ns] : j \in 1..Len(x.attrs)},
-              kids |-> [j \in 1..Len(x.kids) |-> ToNode(x.kids[j])], text |-> x.text]
+              kids |-> [j \in 1..Len(x.kids) |-> ToNode(x.kids[j])], text |-> x.text, foreign |-> x.foreign]
 Forest(f) == [j \in 1..Len(f) |-> ToNode(f[j])]
 
 C14(r) == LET cfg == Config(r.cfg) IN
